@@ -877,7 +877,7 @@ def worlds_phase(ctx):
     budget = tl(ctx) * 0.55
     deadline = time.time() + budget
     wr = ctx.subrng("worlds")
-    nw = ctx.scale(8, 160)
+    nw = ctx.scale(12, 200)
     worlds = [gen_world(random.Random(wr.random()), ctx.tier, i) for i in range(nw)]
     args = [(w, ctx.repo, os.path.join(ctx.tmp, "w%d" % i), deadline, "%d-%d" % (ctx.seed, i)) for i, w in enumerate(worlds)]
     workers = min(len(args), max(2, (os.cpu_count() or 4) // 2))
